@@ -13,7 +13,7 @@ PROPS = {
     'C05': dict(families=['layout', 'normalize'], bounded='pvf.bounded.c05', level='proof'),
     'C06': dict(families=['layout', 'normalize'], bounded='pvf.bounded.c06', level='other'),
     'C07': dict(families=[], bounded='pvf.bounded.c07', level='other'),
-    'C08': dict(families=['printers'], bounded='pvf.bounded.c08', level='other'),
+    'C08': dict(families=['printers', 'strings'], bounded='pvf.bounded.c08', level='other'),
     'C09': dict(families=[], bounded='pvf.bounded.c09', level='other'),
     'C10': dict(families=['context', 'printers'], bounded='pvf.bounded.c10', level='other'),
     'C11': dict(families=['context', 'printers'], bounded='pvf.bounded.c11', level='other'),
